@@ -26,6 +26,8 @@ var registry = map[string]entry{
 	"C06": {"exploration", props.C06},
 	"C07": {"exploration", props.C07},
 	"C08": {"fault_enumeration", props.C08},
+	"C09": {"fault_enumeration", props.C09},
+	"C10": {"fault_enumeration", props.C10},
 	"C11": {"exploration", props.C11},
 	"C12": {"exploration", props.C12},
 	"C13": {"exploration", props.C13},
